@@ -116,6 +116,20 @@ CHECKS = {
         note="Bound: depth 2 full / 3 reduced alphabet (quick), 3 / 4 (thorough); weights from {1,-1,2,0,cancelling,1/3*3}. "
              "Oracle is canonical-form comparison in mc/refalg.py.",
     ),
+    "C08": dict(
+        category="model_checking",
+        technique="exhaustive enumeration of step variants x sizes x function kinds x starting points x preceding step on the real "
+                  "primitive steps; returned objects and the exact diff of every function's samples / constraints compared with "
+                  "reference descriptions; the references validated on real closed-form operations",
+        text="For every combination the step is executed and everything it did is diffed: the returned tuple must satisfy the "
+             "documented relation (canonical forms), every function must have gained exactly the documented samples and side "
+             "constraints (as functionals with sense) and nothing else, leaves that must be fresh are fresh, the caller's "
+             "arguments, the problem and the partitions are untouched, and on a sum the terms' samples add up to the sum's. "
+             "The reference descriptions are themselves checked on ~500 real operations (prox, line search, LMO, inexact "
+             "directions on the error boundary, epsilon-subgradients, primal-dual pairs, mirror steps).",
+        note="13 step variants x sizes {0, 1/2, 1, 2} x 4 function kinds x 3 starting points x 3 preceding-step options. "
+             "Concrete side limited to members with closed-form steps (quadratics, |x|, intervals, quadratic mirror maps).",
+    ),
     "C11": dict(
         category="model_checking",
         technique="every grammar model x {none, trace, logdet1} formulated through both wrappers; row-by-row comparison of "
